@@ -191,6 +191,15 @@ def handle (st : State) (op : String) (j : Json) : Except String (State × Json)
       ("view", view), ("hits", Json.arr (s1.hits.reverse.map Json.str).toArray),
       ("draws_left", jnat s1.draws.length)]
     pure ({ s1 with log := [], touched := [], hits := [] }, out)
+  | "acc.patch" =>
+    -- state transfer for a step the model declined and that only changed attributes the index does not read
+    let n ← j.getObjValAs? Nat "nid"
+    let attrs ← (← j.getObjValAs? (Array Json) "attrs").toList.mapM (fun kv => do
+      match (← kv.getArr?).toList with
+      | [k, v] => pure ((← k.getStr?), (← v.getStr?))
+      | _ => throw "attr pair")
+    let upd (rows : List Row) : List Row := rows.map (fun r => if r.nid == n then { r with attrs := attrs } else r)
+    pure ({ st with frags := st.frags.map (fun f => { f with rows := upd f.rows }), limbo := upd st.limbo }, Json.str "ok")
   | "acc.dump" =>
     let fr := (st.frags.zip st.ix).map (fun (af, f) => Json.mkObj ([("name", Json.str af.name),
       ("rows", Json.arr (af.rows.map rowJson).toArray),
